@@ -51,7 +51,7 @@ fn main() {
         "C20" => c20::run(&mut r),
         "C01" => c01::run_c01(&mut r),
         "C04" => c01::run_c04(&mut r),
-        "C06" => c01::run_c06(&mut r),
+        "C06" => { c01::run_c06(&mut r); c15::run(&mut r) }
         "C07" => c01::run_c07(&mut r),
         "C02" => c02::run(&mut r),
         "C03" => c03::run(&mut r),
